@@ -140,6 +140,21 @@ func PrecOracle(l *Lang) *report.RuleResult {
 				res.OK(key, fmt.Sprintf("%s:%d", g.File, p.Line), "", "unary "+p.RHS[0]+" binds like "+unaryLike[p.RHS[0]])
 			}
 		}
+		// a production `a OP b` (and a prefix production `OP a`, other than unary +/-) is reduced or not, when the next
+		// token is another operator, by comparing ITS precedence with that token's: it must be OP's own level. A
+		// %prec that gives the production another level changes how `a OP b OP2 c` groups although the operator
+		// table itself is right (seed C10-12: %prec T_INC on the binary minus of constant expressions).
+		if opIdx := operatorOf(g, p, olevel); opIdx >= 0 {
+			op := p.RHS[opIdx]
+			res.Count("operator-rules", 1)
+			prec, _, via := g.RulePrec(p)
+			key := l.Label + "/rule:" + g.Key(p)
+			if so := g.Symbols[op]; so != nil && so.Prec != 0 && prec != so.Prec {
+				res.Bad(key, fmt.Sprintf("%s:%d", g.File, p.Line), "", fmt.Sprintf("the production %s: %s has the precedence of %s, not that of its operator %s: next to an operator whose level lies between the two it groups differently from PHP's table", p.LHS, strings.Join(p.RHS, " "), via, op))
+			} else {
+				res.OK(key, fmt.Sprintf("%s:%d", g.File, p.Line), "", "the production has the precedence of its operator "+op)
+			}
+		}
 		if p.PrecSym != "" {
 			res.Count("prec-directives", 1)
 			if s := g.Symbols[p.PrecSym]; s == nil || s.Prec == 0 {
@@ -148,6 +163,23 @@ func PrecOracle(l *Lang) *report.RuleResult {
 		}
 	}
 	return res
+}
+
+// operatorOf: the index of the operator of a production `a OP b` or `OP a` whose operands are nonterminals and
+// whose operator is in the oracle table; -1 otherwise (unary +/- are judged by the unary rule above).
+func operatorOf(g *Grammar, p *Production, olevel map[string]int) int {
+	nt := func(s string) bool { y := g.Symbols[s]; return y != nil && !y.Terminal }
+	switch len(p.RHS) {
+	case 3:
+		if nt(p.RHS[0]) && nt(p.RHS[2]) && olevel[p.RHS[1]] != 0 {
+			return 1
+		}
+	case 2:
+		if nt(p.RHS[1]) && olevel[p.RHS[0]] != 0 && p.RHS[0] != "'+'" && p.RHS[0] != "'-'" {
+			return 0
+		}
+	}
+	return -1
 }
 
 func usedInRules(g *Grammar, t string) bool {
